@@ -20,7 +20,8 @@ KindConsistent(e) ==      \* the harness' command catalogue agrees with the docu
 JudgeRet(e) ==
   LET real == plan.kind \in {"cmd", "qok", "qnook"}
       isq  == plan.kind \in {"qok", "qnook"} IN
-  IF e.cls = "raised" THEN "NoRaise"
+  IF e.cls = "endless" THEN "Returns"               \* the request never came back (the harness stopped it after 2000 reads)
+  ELSE IF e.cls = "raised" THEN "NoRaise"
   ELSE IF wrote # (IF real THEN 1 ELSE 0) THEN "WriteOnce"
   ELSE IF ~real /\ e.cls # "none" THEN "NoOp"
   ELSE IF isq /\ e.cls # "str" THEN "QueryReturnsText"
